@@ -44,7 +44,10 @@ Section Spec.
                                    nth_error (m_states m) (tr_from t) = Some sf -> nth_error (m_states m) (tr_to t) = Some st' ->
                                    In it' st' -> it_dot it' > 0 ->
                                    exists it, In it sf /\ next_sym it = Some (tr_symbol t) /\
-                                              it_rule it = it_rule it' /\ S (it_dot it) = it_dot it'
+                                              it_rule it = it_rule it' /\ S (it_dot it) = it_dot it';
+    mi_nodup : NoDup (m_transitions m);
+    mi_sym : forall t, In t (m_transitions m) ->
+                       exists sf it, nth_error (m_states m) (tr_from t) = Some sf /\ In it sf /\ next_sym it = Some (tr_symbol t)
   }.
 
   Lemma reach_dot_pos K it : reach cx K it -> it_dot it > 0 -> In it K.
@@ -138,6 +141,10 @@ Section Spec.
       pose proof (upd_new_state states _ _ _ Hsf0 F) as E1. rewrite E1 in Hsf. injection Hsf as <-.
       pose proof (upd_new_state states _ _ _ Hst0' To) as E2. rewrite E2 in Hst'. injection Hst' as <-.
       rewrite S. apply (trans_ok_back b t (bi_trans cx b HB t Ht) sf0 st0' it'); auto.
+    - apply (ssorted_nodup transition_cmp transition_cmp_laws), (ofrom_iter_sorted transition_cmp transition_cmp_laws).
+    - intros t' Ht'. apply Htrans in Ht' as (t & Ht & Hu). destruct (Hupd_t _ _ Hu) as (F & _ & S).
+      destruct (bi_sym cx b HB t Ht) as (sf & it & Hsf & Hit & Hn). unfold sts in Hsf. fold states in Hsf.
+      exists sf, it. split; [eapply upd_new_state; eauto|]. split; [exact Hit|]. rewrite S. exact Hn.
   Qed.
 
   (* the construction as a whole *)
